@@ -10,7 +10,7 @@ structure LI (c : Conn) : Prop where
   phase : c.kind ≠ .dial → (c.add = 0 ∨ c.add = 1 ∨ c.add = 6) → c.pSet = false
   phase2 : c.add = 2 → c.opens = 0 ∧ c.pSet = true
   phase1 : c.add = 2 → c.closed = true → c.raced = true
-  phase1a : c.add = 1 → c.closed = false
+  phase1a : (c.add = 1 ∨ c.add = 4) → c.closed = false
   addK : c.add ≠ 0 → c.kind ≠ .dial
   addK2 : (c.add = 1 ∨ c.add = 2 ∨ c.add = 3 ∨ c.add = 4 ∨ c.add = 6) → (c.kind = .add ∨ c.kind = .acc)
   vis0 : c.visible = true → c.kind = .dial ∨ c.add ≥ 3
@@ -21,7 +21,7 @@ structure LI (c : Conn) : Prop where
   tdOk : ∀ e, c.td = some e → c.closed = true ∧ c.cause = some e ∧ c.closeN = 0 ∧ c.fdOpen = true
   doneOk : c.closed = true → c.td = none →
     c.cause = some c.cerr ∧ c.fdOpen = false ∧ c.dial ≠ .pending ∧
-    (c.kind ≠ .udp → c.unmanaged = false → c.closeN = 1) ∧ (c.add ≠ 4 → c.inTable = false)
+    (c.kind ≠ .udp → c.unmanaged = false → c.closeN = 1) ∧ c.inTable = false
   unmanagedOk : c.unmanaged = true → c.pSet = false
   pOpen : c.pSet = true → (c.kind = .add ∨ c.kind = .acc) → c.add ≠ 2 → c.opens ≥ 1
   pOpenS : c.pSet = true → c.kind = .sess → c.opens ≥ 1
@@ -59,13 +59,11 @@ theorem flip_who (c : Conn) (h : LI c) (hg : c.visible = true ∨ c.kind = .add)
     · omega
   · exact hk
 
-theorem vis_not1 (c : Conn) (h : LI c) (hv : c.visible = true) : c.add ≠ 1 := by
-  intro h1
-  rcases h.vis0 hv with hd | h3
-  · exact absurd hd (h.addK (by omega))
-  · omega
+theorem free_ok (c : Conn) (hf : free c = true) : c.add ≠ 1 ∧ c.add ≠ 4 := by
+  simp only [free, Bool.and_eq_true, bne_iff_ne, ne_eq] at hf
+  exact hf
 
-theorem li_flip (c : Conn) (e : Err) (st : Bool) (h : LI c) (hr : c.add = 2 → c.kind = .add) (hn1 : c.add ≠ 1) :
+theorem li_flip (c : Conn) (e : Err) (st : Bool) (h : LI c) (hr : c.add = 2 → c.kind = .add) (hn1 : c.add ≠ 1 ∧ c.add ≠ 4) :
     LI (flip c e st) := by
   unfold flip
   split
@@ -100,7 +98,7 @@ theorem li_teardown (c : Conn) (h : LI c) : LI (teardown c) := by
     by_cases hp : c.pSet = true ∧ c.kind ≠ .udp <;> by_cases hd : c.dial = .pending <;>
       simp only [hp, hd, ↓reduceIte] <;> li_auto h c
 
-theorem li_timerW (c : Conn) (h : LI c) (hw : c.wT = true) (hr : c.add = 2 → c.kind = .add) (hn1 : c.add ≠ 1) :
+theorem li_timerW (c : Conn) (h : LI c) (hw : c.wT = true) (hr : c.add = 2 → c.kind = .add) (hn1 : c.add ≠ 1 ∧ c.add ≠ 4) :
     LI (timerW c) := by
   unfold timerW
   split
@@ -116,7 +114,7 @@ theorem li_timerW (c : Conn) (h : LI c) (hw : c.wT = true) (hr : c.add = 2 → c
 
 theorem li_dialed (c : Conn) (h : LI c) (hkd : c.kind = .dial) (hk : c.kres.isSome = true) : LI (dialed c) := by
   have hr : c.add = 2 → c.kind = .add := fun ha => absurd hkd (h.addK (by omega))
-  have hn1 : c.add ≠ 1 := fun h1 => absurd hkd (h.addK (by omega))
+  have hn1 : c.add ≠ 1 ∧ c.add ≠ 4 := ⟨fun h1 => absurd hkd (h.addK (by omega)), fun h1 => absurd hkd (h.addK (by omega))⟩
   unfold dialed
   split
   · exact h
@@ -158,14 +156,18 @@ theorem li_addOpen (c : Conn) (h : LI c) (hg : ((c.kind == .add || c.kind == .ac
     LI (addOpen c) := by
   unfold addOpen; li_auto h c
 
+set_option maxHeartbeats 800000 in
 theorem li_addTable (c : Conn) (h : LI c) (hg : ((c.kind == .add || c.kind == .acc) && c.add == 3) = true) :
     LI (addTable c) := by
-  unfold addTable; li_auto h c
+  unfold addTable; split
+  · li_auto h c
+  · next hc => have hc' : c.closed = false := by simpa using hc
+               li_auto h c
 
 set_option maxHeartbeats 800000 in
 theorem li_addReg (c : Conn) (h : LI c) (hg : ((c.kind == .add || c.kind == .acc) && c.add == 4) = true) :
     LI (addReg c) := by
-  unfold addReg; split <;> li_auto h c
+  unfold addReg; li_auto h c
 
 theorem li_sessOpen (c : Conn) (h : LI c) (hg : (c.kind == .sess && c.add == 0 && !c.closed) = true) :
     LI (sessOpen c) := by
@@ -196,7 +198,7 @@ theorem li_kconnect (c : Conn) (r : Option Err) (h : LI c)
     (hg : (c.kind == .dial && c.dial == .pending && c.kres.isNone) = true) : LI { c with kres := some r } := by
   li_auto h c
 
-theorem li_setDl (c : Conn) (r w : Bool) (h : LI c) (hg : (c.visible && !c.closed) = true) :
+theorem li_setDl (c : Conn) (r w : Bool) (h : LI c) (hg : (c.visible && !c.closed && free c) = true) :
     LI { c with rT := c.rT || r, wT := c.wT || w, wTdial := if w && !c.wT then false else c.wTdial } := by
   li_auto h c
 
@@ -231,15 +233,19 @@ theorem li_step (c c' : Conn) (a : Act) (h : LI c) (hs : step c a = some c') : L
   | flip e st =>
     simp only [step] at hs; split at hs <;> cases hs
     next hg =>
-      simp only [Bool.and_eq_true, Bool.or_eq_true, beq_iff_eq, bne_iff_ne, ne_eq] at hg
-      exact li_flip c e st h (flip_who c h hg.1) hg.2
+      simp only [Bool.and_eq_true, Bool.or_eq_true, beq_iff_eq] at hg
+      exact li_flip c e st h (flip_who c h hg.1) (free_ok c hg.2)
   | teardown => simp only [step] at hs; split at hs <;> cases hs; exact li_teardown c h
   | timerR =>
     simp only [step] at hs; split at hs <;> cases hs
-    next hg => simp only [Bool.and_eq_true] at hg; exact li_flip c _ true h (flip_who c h (Or.inl hg.2)) (vis_not1 c h hg.2)
+    next hg =>
+      simp only [Bool.and_eq_true] at hg
+      exact li_flip c _ true h (flip_who c h (Or.inl hg.1.2)) (free_ok c hg.2)
   | timerW =>
     simp only [step] at hs; split at hs <;> cases hs
-    next hg => simp only [Bool.and_eq_true] at hg; exact li_timerW c h hg.1 (flip_who c h (Or.inl hg.2)) (vis_not1 c h hg.2)
+    next hg =>
+      simp only [Bool.and_eq_true] at hg
+      exact li_timerW c h hg.1.1 (flip_who c h (Or.inl hg.1.2)) (free_ok c hg.2)
   | setDl r w => simp only [step] at hs; split at hs <;> cases hs; next hg => exact li_setDl c r w h hg
   | clearW => simp only [step] at hs; split at hs <;> cases hs; exact li_clearW c h
   | setQ q => simp only [step] at hs; split at hs <;> cases hs; exact li_setQ c q h
